@@ -60,7 +60,8 @@ def task_sets(which: int):
             A.Foo(p=float('nan')), A.Foo(p=['é', {'k': float('nan'), 'z': 'ü€'}], q=A.Leaf(v=float('nan'))), A.JFoo(p='日本'),
             A.Shape(kind='nested', n=3), A.Shape(kind='large', n=200), A.Shape(kind='enum', n=0), A.Shape(kind='none', n=0)] + [
             # results that change between executions: a value, then None / falsy values, then a value again
-            A.Flip(kind=k, p=1) for k in ('none-second', 'none-first', 'falsy')] + [A.JFlip(kind='none-second', p=2)]
+            A.Flip(kind=k, p=1) for k in ('none-second', 'none-first', 'falsy')] + [A.JFlip(kind='none-second', p=2)] + [
+            A.Fit__v2(p=1), A.Fit_(p=[A.Leaf(v='u')]), A.EFoo(p=1), A.ABFoo(p='x', q=A.Fit__v2(p=2))]
     if which == 1:
         return [A.Foo(p=v, q=w) for v in (0, '', 'a/b') for w in (None, 2 ** 63, ' ')] + [
             A.Foo(p={'a': {'b': [A.Leaf(v=A.Color.RED)]}}), A.Shape(kind='scalar', n=7), A.Shape(kind='large', n=1200)]
